@@ -15,6 +15,7 @@ RULE = (
     "same for KafkaBootstrapProtocol. non-trivial = >= 2 requests outstanding together with answers out of issue order, a late "
     "reply to a cancelled request, a split frame or a drop with mixed requests; distinct = distinct trace."
     ' A response callback may close the broker client from inside the delivery (the model learns of the close at that instant; close() must not raise there, every other pending request fails, nothing hangs).'
+    ' Correlation ids cover the whole int32 range (first ids 1, 7, 2^31-3, -3, -2^31; the counter wraps like an int32).'
 )
 ASSUMPTIONS = [
     "frames shorter than 4 bytes are not generated (the property gives them no meaning)",
